@@ -247,7 +247,9 @@ def run_ascii(ctx):
                     ctx.count("rejected_ok")
     for h, ok in (("a%41b", True), ("a%zzb", False), ("a%4", False), ("a%", False), ("%41", True), ("a%4gb", False),
                   # pct-encoded reg-names that end in a digit: the encoder probes them as IP-literal candidates first
-                  ("node%2D1", True), ("caf%C3%A9", True), ("a%41b.example9", True), ("%31", True), ("a%zz9", False), ("a%9", False)):
+                  ("node%2D1", True), ("caf%C3%A9", True), ("a%41b.example9", True), ("%31", True), ("a%zz9", False), ("a%9", False),
+                  # numeric-looking reg-names that are not IPv4 literals: names, kept as written
+                  ("010.0.0.1", True), ("192.168.01.1", True), ("1.2.3.04", True), ("256.1.1.1", True), ("1.2.3", True), ("1.2.3.4.5", True), ("00.0.0.0", True), ("0x7f.0.0.1", True)):
         for route, fn in (("build_host", lambda: URL.build(scheme="http", host=h)), ("with_host", lambda: base.with_host(h))):
             r = guarded(fn)
             ctx.ev((route, "pct", h, "exc" if is_exc(r) else "ok"))
